@@ -1003,6 +1003,8 @@ static int parent_main(const Scenario& sc, const Options& opt) {
     return exit_code;
 }
 
+namespace hz { int conformance_main(); }
+
 // ------------------------------------------------------------------ main
 static void on_terminate() {
     const char msg[] = "simcheck: std::terminate called\n";
@@ -1050,6 +1052,7 @@ int main(int argc, char** argv) {
         setenv("VERIF_SAN_ENV", "1", 1);
         execv("/proc/self/exe", argv);
     }
+    if (opt.prop == "conformance") return hz::conformance_main();
     const Scenario* sc = nullptr;
     for (auto& s : scenarios()) if (s.id == opt.prop) sc = &s;
     if (!sc) { fprintf(stderr, "unknown property '%s' (use --list)\n", opt.prop.c_str()); return 2; }
